@@ -110,6 +110,19 @@ def wf_ir(draw, c=None):
 
     ir = {"vars": [[v, "init_" + v] for v in POOL], "tasks": tasks}
 
+    # connect most orphans so that definitions have depth, not just many parallel roots
+    inb0 = lang.inbound(ir)
+    for i, nm in enumerate(names):
+        if i > 0 and not inb0[nm] and draw(st.integers(0, 4)) > 0:
+            src = names[draw(st.integers(0, i - 1))]
+            trs = tasks[src]["next"]
+            if trs and draw(st.booleans()):
+                tr = trs[draw(st.integers(0, len(trs) - 1))]
+                if nm not in tr["do"]:
+                    tr["do"] = [x for x in tr["do"] if x not in ("noop", "fail", "continue")] + [nm] + [x for x in tr["do"] if x in ("noop", "fail", "continue")]
+            else:
+                trs.append({"when": draw(conds(c, lp)), "do": [nm], "publish": pub_list(src)})
+
     # joins
     inb = lang.inbound(ir)
     for nm in names:
@@ -139,6 +152,23 @@ def wf_ir(draw, c=None):
                 t["retry"]["delay"] = draw(st.integers(0, 3))
         if c["delay"] and draw(st.floats(0, 1)) < c["delay"]:
             t["delay"] = draw(st.integers(0, 5))
+    # a with-items task's result is the list of item results: conditions / publishes on result().key
+    # would be run-time expression errors (C11 owns those), so use status conditions there
+    for nm in names:
+        t = tasks[nm]
+        if t.get("with"):
+            if t["with"].get("keys"):
+                t.setdefault("input", {})["it"] = E(["item_key", "i"], lp(draw))
+            else:
+                t.setdefault("input", {})["it"] = E(["item"], lp(draw))
+            for tr in t["next"]:
+                if "res_" in repr(tr["when"]["e"]):
+                    tr["when"] = E(draw(st.sampled_from([["succeeded"], ["failed"], ["completed"]])), tr["when"]["lang"])
+                for pv in tr["publish"]:
+                    if lang.is_expr(pv[1]) and pv[1]["e"][0] == "res_key":
+                        pv[1] = E(["res"], pv[1]["lang"])
+            if t.get("retry") and t["retry"].get("when") and "res_" in repr(t["retry"]["when"]["e"]):
+                t["retry"]["when"] = E(["failed"], t["retry"]["when"]["lang"])
     if c["retry_cmd"]:
         for nm in names:
             if draw(st.integers(0, 7)) == 0 and not tasks[nm].get("retry"):
@@ -204,8 +234,10 @@ def choices(max_size=60, hi=255):
 
 
 @st.composite
-def scenario(draw, c=None, flags=None, p_fail=0.25, abend=True, max_choices=60, fixed_outcomes=False):
+def scenario(draw, c=None, flags=None, p_fail=None, abend=True, max_choices=60, fixed_outcomes=False):
     ir = draw(wf_ir(c))
+    if p_fail is None:
+        p_fail = draw(st.sampled_from([0.0, 0.05, 0.1, 0.2, 0.35]))
     return {
         "ir": ir,
         "inputs": {},
